@@ -323,6 +323,27 @@ func (e *Engine) verifyFunction(fn *ssa.Function, fc *FuncContract) (res *FuncRe
 		for k := range fv.assumptions {
 			res.Assumptions = append(res.Assumptions, k)
 		}
+		// every clause that is assumed and never checked (mechanical scan of the contract used)
+		for _, c := range fc.Requires {
+			if c.Free {
+				res.Assumptions = append(res.Assumptions, fmt.Sprintf("free-requires of %s (assumed, checked at no call site): %s", fc.Key, c.Src))
+			}
+		}
+		for _, c := range fc.Ensures {
+			if c.Free {
+				res.Assumptions = append(res.Assumptions, fmt.Sprintf("free-ensures of %s (assumed by callers, not proved): %s", fc.Key, c.Src))
+			}
+		}
+		for li, lc := range fc.Loops {
+			if lc == nil {
+				continue
+			}
+			for _, c := range lc.Invariants {
+				if c.Free {
+					res.Assumptions = append(res.Assumptions, fmt.Sprintf("free-invariant of %s loop#%d (assumed at the loop head, not proved): %s", fc.Key, li, c.Src))
+				}
+			}
+		}
 		for k := range fv.reached {
 			res.Reached = append(res.Reached, k)
 		}
